@@ -107,6 +107,9 @@ pub enum Obj {
     Number(u8, DualSpec),
     /// 0 ADOrder, 1 Modifier, 2 Convention
     Enum(u8, u8),
+    /// two wide numbers (16-40 variables) over the same names in different orders, saved together
+    /// and loaded one right after the other (both kept alive): loading must not couple them
+    WidePair { n: u8, second: bool, rot: u8, coeffs: Vec<Fl> },
 }
 
 #[derive(Clone, Debug, Serialize, Deserialize)]
@@ -207,6 +210,7 @@ fn obj() -> impl Strategy<Value = Obj> {
         1 => "[a-zA-Z]{3}".prop_map(Obj::Ccy),
         2 => (0u8..3, dual_spec()).prop_map(|(k, d)| Obj::Number(k, d)),
         1 => (0u8..3, 0u8..11).prop_map(|(w, x)| Obj::Enum(w, x)),
+        1 => (16u8..=40, any::<bool>(), 1u8..=39, proptest::collection::vec(coeff(), 80)).prop_map(|(n, second, rot, coeffs)| Obj::WidePair { n, second, rot, coeffs }),
     ]
 }
 
@@ -442,6 +446,43 @@ impl C16 {
                             }
                         }
                         Err(e) => fail_rt!(v, "Cal", path, "round trip failed", e),
+                    }
+                }
+                // a document written by another producer: the same calendar with its holiday list in
+                // another order (reversed and rotated) must load to an equal calendar that answers
+                // as the week mask and the holiday list say
+                if spec.hols.len() >= 2 {
+                    if let Ok(text) = c.to_json() {
+                        fn reorder(v: &mut serde_json::Value, rot: usize) -> bool {
+                            match v {
+                                serde_json::Value::Object(m) => {
+                                    if let Some(serde_json::Value::Array(a)) = m.get_mut("holidays") {
+                                        a.reverse();
+                                        let k = rot % a.len().max(1);
+                                        a.rotate_left(k);
+                                        return true;
+                                    }
+                                    m.values_mut().any(|x| reorder(x, rot))
+                                }
+                                serde_json::Value::Array(a) => a.iter_mut().any(|x| reorder(x, rot)),
+                                _ => false,
+                            }
+                        }
+                        if let Ok(mut val) = serde_json::from_str::<serde_json::Value>(&text) {
+                            if reorder(&mut val, spec.hols.len() / 3 + 1) {
+                                v.label("document:holidays-in-another-order");
+                                match catch(|| Cal::from_json(&val.to_string())) {
+                                    Ok(Ok(l)) => {
+                                        let by_spec = cal_answers(&|z| (spec.is_bus(z), true), &probe);
+                                        if l != c || ans(&l) != by_spec {
+                                            fail_rt!(v, "Cal", Path::Json, "a document listing the holidays in another order loads to a different calendar", format!("{:?}", spec));
+                                        }
+                                    }
+                                    Ok(Err(e)) => fail_rt!(v, "Cal", Path::Json, "a document listing the holidays in another order is refused", format!("{}", e)),
+                                    Err(p) => fail_rt!(v, "Cal", Path::Json, "panic loading a re-ordered document", p.message),
+                                }
+                            }
+                        }
                     }
                 }
             }
@@ -766,6 +807,58 @@ impl C16 {
                     }
                 }
             }
+            Obj::WidePair { n, second, rot, coeffs } => {
+                v.label("type:wide-pair");
+                v.nt(true);
+                let n = (*n as usize).clamp(16, 40);
+                let names_a: Vec<String> = (0..n).map(|i| format!("v{}", i)).collect();
+                let mut names_b = names_a.clone();
+                names_b.rotate_left(*rot as usize % n);
+                if rot % 2 == 1 {
+                    names_b.swap(0, n - 1);
+                }
+                let ca: Vec<f64> = (0..n).map(|i| coeffs[i % coeffs.len()].0).collect();
+                let cb: Vec<f64> = (0..n).map(|i| coeffs[(i + 40) % coeffs.len()].0 + 0.125).collect();
+                macro_rules! pair {
+                    ($T:ty, $mk:expr, $bits:expr, $name:expr) => {{
+                        let a: $T = $mk(1.5, names_a.clone(), ca.clone());
+                        let b: $T = $mk(-0.75, names_b.clone(), cb.clone());
+                        for path in [Path::Json, Path::Bincode] {
+                            let loaded: Result<($T, $T, $T, $T), String> = (|| {
+                                if path == Path::Json {
+                                    let (ta, tb) = (serde_json::to_string(&a).map_err(|e| e.to_string())?, serde_json::to_string(&b).map_err(|e| e.to_string())?);
+                                    let la: $T = serde_json::from_str(&ta).map_err(|e| e.to_string())?;
+                                    let lb: $T = serde_json::from_str(&tb).map_err(|e| e.to_string())?; // a is alive
+                                    let lb2: $T = serde_json::from_str(&tb).map_err(|e| e.to_string())?;
+                                    let la2: $T = serde_json::from_str(&ta).map_err(|e| e.to_string())?; // b is alive
+                                    Ok((la, lb, lb2, la2))
+                                } else {
+                                    let (ba, bb) = (bincode::serialize(&a).map_err(|e| e.to_string())?, bincode::serialize(&b).map_err(|e| e.to_string())?);
+                                    let la: $T = bincode::deserialize(&ba).map_err(|e| e.to_string())?;
+                                    let lb: $T = bincode::deserialize(&bb).map_err(|e| e.to_string())?;
+                                    let lb2: $T = bincode::deserialize(&bb).map_err(|e| e.to_string())?;
+                                    let la2: $T = bincode::deserialize(&ba).map_err(|e| e.to_string())?;
+                                    Ok((la, lb, lb2, la2))
+                                }
+                            })();
+                            match loaded {
+                                Ok((la, lb, lb2, la2)) => {
+                                    let same = |x: &$T, y: &$T| x == y && x.vars().iter().eq(y.vars().iter()) && $bits(x) == $bits(y);
+                                    if !same(&la, &a) || !same(&lb, &b) || !same(&lb2, &b) || !same(&la2, &a) {
+                                        fail_rt!(v, $name, path, "numbers over the same names in another order, loaded one after the other, do not come back as saved", format!("{} names, rotation {}", n, rot));
+                                    }
+                                }
+                                Err(e) => fail_rt!(v, $name, path, "round trip failed", e),
+                            }
+                        }
+                    }};
+                }
+                if *second {
+                    pair!(Dual2, |r: f64, nm: Vec<String>, c: Vec<f64>| { let k = nm.len(); let h: Vec<f64> = (0..k * k).map(|i| ((i % 7) as f64 - 3.0) * 0.25).collect(); Dual2::try_new(r, nm, c, h).expect("wide dual2") }, dual2_bits, "Dual2");
+                } else {
+                    pair!(Dual, |r: f64, nm: Vec<String>, c: Vec<f64>| Dual::try_new(r, nm, c).expect("wide dual"), dual_bits, "Dual");
+                }
+            }
             Obj::Enum(which, x) => {
                 v.label("type:enums");
                 macro_rules! en {
@@ -812,11 +905,11 @@ impl Property for C16 {
         vec![Stage::random("objects", tier.pick(40_000, 3_000_000), || obj().prop_map(|obj| Case { obj }))]
     }
     fn rule(&self) -> String {
-        "random objects of every serialisable type: Dual / Dual2 (any finite doubles incl. raw bit patterns, subnormals, 17-digit values; 0-6 names incl. unicode and characters that need JSON escaping), plain / combined / named calendars and the calendar container, curves of all five rules plus the null interpolator x derivative orders 0/1/2 x three calendar kinds (generic struct and the Python-facing wrapper), FX markets (float / first-order / second-order quotes, with and without settlement - a date or a date-time down to the nanosecond -, any base, saved in any derivative order, freshly built or after 1-2 quote updates), splines of the three element types with and without coefficients, FX rates, currencies, the number container and the small enums; each through every path that exists for it: direct JSON (JSON trait or serde_json), the tagged from_json entry point (hook), bincode. Oracle: load(save(x)) == x with the type's own equality AND a per-type query set answered bit-identically (values, by-name arrays, business/settlement days around every holiday, curve look-ups and index values, all n*n rates, spline values); named calendars must serialise to their name only and FX markets to quotes + currencies only; FX markets are compared with both sides at first order and their rates must agree (1e-12) in the saved state. Non-trivial: the object holds a double needing >= 16 significant digits, a name needing escaping, or is a type rebuilt on loading.".into()
+        "random objects of every serialisable type: Dual / Dual2 (any finite doubles incl. raw bit patterns, subnormals, 17-digit values; 0-6 names incl. unicode and characters that need JSON escaping), plain / combined / named calendars and the calendar container, curves of all five rules plus the null interpolator x derivative orders 0/1/2 x three calendar kinds (generic struct and the Python-facing wrapper), FX markets (float / first-order / second-order quotes, with and without settlement - a date or a date-time down to the nanosecond -, any base, saved in any derivative order, freshly built or after 1-2 quote updates), splines of the three element types with and without coefficients, FX rates, currencies, the number container and the small enums; pairs of wide numbers (16-40 variables, same names in another order) loaded one right after the other; calendar documents with the holiday list in another order; each through every path that exists for it: direct JSON (JSON trait or serde_json), the tagged from_json entry point (hook), bincode. Oracle: load(save(x)) == x with the type's own equality AND a per-type query set answered bit-identically (values, by-name arrays, business/settlement days around every holiday, curve look-ups and index values, all n*n rates, spline values); named calendars must serialise to their name only and FX markets to quotes + currencies only; FX markets are compared with both sides at first order and their rates must agree (1e-12) in the saved state. Non-trivial: the object holds a double needing >= 16 significant digits, a name needing escaping, or is a type rebuilt on loading.".into()
     }
     fn floors(&self, tier: Tier) -> Vec<Floor> {
         let m = tier.pick(300u64, 10_000);
-        ["type:Dual", "type:Dual2", "type:Cal", "type:UnionCal", "type:NamedCal", "type:CalType", "type:CurveDF", "type:Curve(wrapper)", "type:FXRates", "type:PPSplineF64", "type:PPSplineDual", "type:PPSplineDual2", "type:FXRate", "type:Ccy", "type:Number", "type:enums", "floats:17-digit", "curve:order0", "curve:order1", "curve:order2", "fx:dual-quotes", "fx:saved-in-order0", "fx:saved-in-order2", "fx:updated-before-saving", "fx:sub-second-settlement", "spline:unsolved"]
+        ["type:Dual", "type:Dual2", "type:Cal", "type:UnionCal", "type:NamedCal", "type:CalType", "type:CurveDF", "type:Curve(wrapper)", "type:FXRates", "type:PPSplineF64", "type:PPSplineDual", "type:PPSplineDual2", "type:FXRate", "type:Ccy", "type:Number", "type:enums", "floats:17-digit", "curve:order0", "curve:order1", "curve:order2", "fx:dual-quotes", "fx:saved-in-order0", "fx:saved-in-order2", "fx:updated-before-saving", "fx:sub-second-settlement", "type:wide-pair", "document:holidays-in-another-order", "spline:unsolved"]
             .iter()
             .map(|l| Floor { label: l, min: m })
             .collect()
